@@ -93,7 +93,8 @@ def work(case):
         failures.append(dict(signature=sig, clause=clause, case=_case_dict(case), detail=detail))
 
     r = ci.run_remote(prog, sched, fail)
-    streams.append((r['ops'], r['lines']))
+    if prog not in ci.IMPL_ONLY_PROGRAMS:
+        streams.append((r['ops'], r['lines']))
     # subscriptions are the process's own: while it is live it stays reachable, whatever other processes on the same communicator
     # do (model-free reading of the `sub=` column of the observation lines)
     for ln in r['lines']:
@@ -107,7 +108,8 @@ def work(case):
     facts = dict(hist=r['hist'], handled=sum(1 for e in r['events'] if e['kind'] == 'call'), nlines=len(r['lines']))
     if kind == 'twin':
         t = ci.run_twin(prog, r)
-        streams.append((t['ops'], t['lines']))
+        if prog not in ci.IMPL_ONLY_PROGRAMS:
+            streams.append((t['ops'], t['lines']))
         if t['mismatches']:
             add('remote-differs-from-direct', 'controlling through the communicator has the same effect as the direct call made '
                 'at the point where the handler runs', t['mismatches'][0])
@@ -263,6 +265,11 @@ def gen_cases(ctx):
             for _i in range(k):
                 sched.setdefault(rng.randrange(npos + 4), []).append(rng.choice(alphabet))
             cases.append(('twin', prog, sched, None))
+    # a program with a raising pause hook (impl-only: twin comparison): every placement of <= 2 messages
+    for k in range(1, 3):
+        npos = n_positions('PauseFault') + 3
+        for s in schedules(npos, MESSAGES + ['env resume'], k):
+            cases.append(('twin', 'PauseFault', s, None))
     # broadcast failures: every tolerated class and one non-tolerated exception at every transition index
     tol = sorted(set(ci.tolerated_classes()) | set(ci.property_kinds()))   # what the source tolerates + what the property names
     for prog in PROGS_QUICK:
@@ -282,6 +289,61 @@ def gen_cases(ctx):
     return cases, exhaustive_upto, K
 
 
+def thread_delivery_stream():
+    """impl-only: control messages delivered by ANOTHER THREAD (as a communicator thread does) to a process whose loop sits idle in
+    its selector: the handler must run and the reply must arrive - the scheduling of the handler has to wake the loop"""
+    common.ensure_repo_on_path()
+    import asyncio
+    import threading
+    import plumpy
+    from plumpy import process_comms as pc
+    fails, n = [], 0
+
+    class W(plumpy.Process):
+        def run(self):
+            return plumpy.Wait(self.nxt)
+
+        def nxt(self, *a):
+            return 7
+    for intent, direct in ((pc.Intent.PAUSE, 'pause'), (pc.Intent.PLAY, 'play'), (pc.Intent.KILL, 'kill')):
+        loop = asyncio.new_event_loop()
+        p = W(loop=loop)
+        ready = threading.Event()
+
+        def runner():
+            asyncio.set_event_loop(loop)
+            loop.create_task(p.step_until_terminated())
+            loop.call_soon(ready.set)
+            loop.run_forever()
+        t = threading.Thread(target=runner, daemon=True)
+        t.start()
+        ready.wait(5)
+        import time
+        time.sleep(0.2)                 # the process is WAITING and the loop is blocked in its selector, nothing scheduled
+        n += 1
+        try:
+            fut = p.message_receive(None, {pc.INTENT_KEY: intent, pc.MESSAGE_TEXT_KEY: None})
+            try:
+                reply = fut.result(timeout=5)
+                reply = reply.result(timeout=5) if hasattr(reply, 'result') else reply
+                ok = reply is True
+            except Exception as e:  # noqa
+                reply, ok = 'raised ' + type(e).__name__, False
+        except Exception as e:  # noqa
+            reply, ok = 'message_receive raised ' + type(e).__name__, False
+        if not ok:
+            fails.append(dict(signature='cross-thread-message-not-answered', clause='controlling a process through the communicator has the '
+                              'same effect and reply as the direct call (here: the message is delivered by another thread while the loop '
+                              'of the process is idle)', detail=dict(message=direct, reply=str(reply)), case=dict(thread_stream=True)))
+        loop.call_soon_threadsafe(loop.stop)
+        t.join(5)
+        try:
+            loop.close()
+        except Exception:  # noqa
+            pass
+    return n, fails
+
+
 def run(ctx):
     common.ensure_repo_on_path()
     cases, exhaustive_upto, K = gen_cases(ctx)
@@ -293,6 +355,8 @@ def run(ctx):
     with mp.Pool(ctx.workers) as pool:
         results = pool.map(work, cases, chunksize=max(1, min(64, len(cases) // (ctx.workers * 8) or 1)))
     failures, divergences = [], []
+    n_thread, f_thread = thread_delivery_stream()
+    failures.extend(f_thread)
     hist, kinds = {}, {}
     # model comparison: all streams of all cases, in parallel driver instances
     flat = []      # (case index, ops, lines)
@@ -325,7 +389,8 @@ def run(ctx):
                         divergences.append(dict(case=_case_dict(cases[i]), op_index=j))
     for i, res in enumerate(results):
         if res['facts']['handled'] > 0 or res['facts'].get('hookfail'):
-            distinct.add(common.digest([cases[i][1], res['streams'][0][1]]))
+            if res['streams']:
+                distinct.add(common.digest([cases[i][1], res['streams'][0][1]]))
     phases = sorted({k.split('@')[1] for k in hist})
     return dict(
         evaluations=len(cases), distinct_nontrivial=len(distinct),
@@ -350,6 +415,9 @@ def _from_dict(c):
 
 
 def replay(ctx, failure):
+    if failure['case'].get('thread_stream'):
+        n, fs = thread_delivery_stream()
+        return dict(runs=n, failures=[dict(signature=f['signature'], detail=f['detail']) for f in fs])
     case = _from_dict(failure['case'])
     res = work(case)
     out = dict(case=failure['case'], failures=res['failures'], impl=[dict(ops=o, lines=l) for o, l in res['streams']])
